@@ -81,6 +81,8 @@ def gen(seed: int, tier: str) -> dict[str, Any]:
     cfg["join_first"] = stop_mode == "join_then_stop"
     # stopping = XKNX.stop() (which waits for the queue first) or TelegramQueue.stop() itself with telegrams still pending
     cfg["stop_via"] = "queue" if stop_mode in ("early", "immediately") and rng.random() < 0.4 else "xknx"
+    # two stop() calls overlap (e.g. a context-manager exit racing a signal handler)
+    cfg["overlap_stop"] = rng.random() < 0.15
     if cfg["stop_via"] == "xknx" and rng.random() < 0.25:
         # the same XKNX object is started again after stop() returned and sends a few more telegrams
         cfg["restart"] = {"n": rng.choice([1, 2, 4]), "gap": rng.choice([0.0, 0.001, 0.3]),
@@ -174,9 +176,16 @@ def run(plan: dict[str, Any]) -> dict[str, Any]:
                 info["join_ret"] = loop.time()
             info["stop_call"] = loop.time()
             R.record("op_call", "user", "stop")
+            if cfg.get("overlap_stop"):
+                R.extra_faults["overlapping_stop_calls"] += 1
             if cfg.get("stop_via") == "queue":
-                await xknx.telegram_queue.stop()
+                if cfg.get("overlap_stop"):
+                    await asyncio.gather(xknx.telegram_queue.stop(), xknx.telegram_queue.stop())
+                else:
+                    await xknx.telegram_queue.stop()
                 await xknx.knxip_interface.stop()
+            elif cfg.get("overlap_stop"):
+                await asyncio.gather(xknx.stop(), xknx.stop())
             else:
                 await xknx.stop()
             info["stop_ret"] = loop.time()
